@@ -145,7 +145,8 @@ dev_impl! {
                 }
                 PoolOp::Tensor { i, j } => {
                     let (a, b) = (pick(i), pick(j));
-                    (Some(a.0.tensor(&b.0)), Some(a.1.tensor(&b.1)))
+                    // the `|` operator in every other step
+                    (Some(if step % 2 == 0 { a.0.tensor(&b.0) } else { &a.0 | &b.0 }), Some(a.1.tensor(&b.1)))
                 }
                 PoolOp::Dagger { i } => {
                     let a = pick(i);
@@ -215,6 +216,8 @@ dev_impl! {
         out
     }
 
+    // (the lax twin of the pool machine is `lax_pool` below: Vec device only)
+
     /// conversion through the lax representation exists for the Vec device only
     fn c05_roundtrip(f: &OH<K>) -> OH<K> {
         let p = Self::from_dev(f).expect("pool members are well-formed");
@@ -271,6 +274,103 @@ dev_impl! {
         out.push(("OpenHypergraph::new", OpenHypergraph::new(so, to, hv).is_ok()));
         out
     }
+}
+
+/// The same pool machine through the *lax* public API (hard-wired to the Vec device): every result,
+/// strictified, must be well-formed, typed as promised and isomorphic to its plain reference twin.
+/// Operands keep their pending unifications (nothing is quotiented in between).
+pub fn lax_pool(c: &Case) -> Vec<StepObs> {
+    use open_hypergraphs::lax::OpenHypergraph as Lax;
+    type LOH = Lax<L, L>;
+    let mut pool: Vec<(LOH, Plain)> = c.seeds.iter().map(|p| (LOH::from_strict(B::<VecKind>::to_dev(p)), p.clone())).collect();
+    let mut out = vec![];
+    if pool.is_empty() {
+        return out;
+    }
+    let ff = |t: Vec<usize>, n: usize| FiniteFunction::<VecKind> { table: open_hypergraphs::array::vec::VecArray(t), target: n };
+    for (step, op) in c.ops.iter().enumerate() {
+        let n = pool.len();
+        let pick = |i: &usize| &pool[*i % n];
+        let (got, want): (Option<LOH>, Option<Plain>) = match op {
+            PoolOp::Compose { i, j } => {
+                let (a, b) = (pick(i), pick(j));
+                (if step % 2 == 0 { a.0.compose(&b.0) } else { &a.0 >> &b.0 }, a.1.glue(&b.1))
+            }
+            PoolOp::Sandwich { i, j } => {
+                let (a, b) = (pick(i), pick(j));
+                let lhs = a.0.tensor(&LOH::identity(b.1.src_type()));
+                let rhs = LOH::identity(a.1.tgt_type()).tensor(&b.0);
+                (lhs.compose(&rhs), a.1.tensor(&Plain::identity(&b.1.src_type())).glue(&Plain::identity(&a.1.tgt_type()).tensor(&b.1)))
+            }
+            PoolOp::ComposeDagger { i } => {
+                let a = pick(i);
+                (a.0.compose(&a.0.dagger()), a.1.glue(&a.1.dagger()))
+            }
+            PoolOp::Tensor { i, j } => {
+                let (a, b) = (pick(i), pick(j));
+                let t = match step % 3 {
+                    0 => a.0.tensor(&b.0),
+                    1 => &a.0 | &b.0,
+                    _ => {
+                        let mut x = a.0.clone();
+                        x.tensor_assign(b.0.clone());
+                        x
+                    }
+                };
+                (Some(t), Some(a.1.tensor(&b.1)))
+            }
+            PoolOp::Dagger { i } => {
+                let a = pick(i);
+                (Some(a.0.dagger()), Some(a.1.dagger()))
+            }
+            PoolOp::IdentityOn { i } => {
+                let ty = pick(i).1.tgt_type();
+                (Some(<LOH as Arrow>::identity(ty.clone())), Some(Plain::identity(&ty)))
+            }
+            PoolOp::TwistAfter { i, j } => {
+                let (a, b) = (pick(i), pick(j));
+                let (ta, tb) = (a.1.tgt_type(), b.1.src_type());
+                let tw = <LOH as SymmetricMonoidal>::twist(ta.clone(), tb.clone());
+                (a.0.tensor(&b.0.dagger()).compose(&tw), a.1.tensor(&b.1.dagger()).glue(&Plain::twist(&ta, &tb)))
+            }
+            PoolOp::SpiderOn { i, s, t } => {
+                let w = pick(i).1.w.clone();
+                let (s, t) = (fit(s, w.len()), fit(t, w.len()));
+                (LOH::spider(ff(s.clone(), w.len()), ff(t.clone(), w.len()), w.clone()), Plain::spider(&s, &t, &w))
+            }
+            PoolOp::HalfSpiderOn { i, s } => {
+                let w = pick(i).1.w.clone();
+                let s = fit(s, w.len());
+                let t: Vec<usize> = (0..w.len()).collect();
+                (<LOH as Spider<VecKind>>::half_spider(ff(s.clone(), w.len()), w.clone()), Plain::spider(&s, &t, &w))
+            }
+            PoolOp::Singleton { l, a, b } => (Some(LOH::singleton(*l, a.clone(), b.clone())), Some(Plain::singleton(*l, a, b))),
+            PoolOp::TensorOperations { ops } => {
+                // built imperatively: new_operation per entry, interfaces appended
+                let mut f = LOH::empty();
+                for (l, a, b) in ops {
+                    let (_, (s, t)) = f.new_operation(*l, a.clone(), b.clone());
+                    f.sources.extend(s);
+                    f.targets.extend(t);
+                }
+                (Some(f), Some(Plain::tensor_all(&ops.iter().map(|o| Plain::singleton(o.0, &o.1, &o.2)).collect::<Vec<_>>())))
+            }
+            PoolOp::Functor { .. } | PoolOp::RoundTrip { .. } => continue, // C12 / the strict pool cover these
+        };
+        let keep = want.as_ref().map_or(false, |w| w.w.len() <= MAX_NODES && w.e.len() <= MAX_NODES);
+        let trait_types = got.as_ref().map(|g| (Arrow::source(g), Arrow::target(g)));
+        let got_plain = got.as_ref().map(|g| B::<VecKind>::from_dev(&g.clone().to_strict()));
+        let ok = matches!(got_plain, Some(Ok(_)));
+        out.push(StepObs { step, what: format!("lax {:?}", op), trait_types, got: got_plain, want: want.clone() });
+        if let (Some(g), Some(w), true, true) = (got, want, keep, ok) {
+            if pool.len() >= 6 {
+                pool[step % 6] = (g, w);
+            } else {
+                pool.push((g, w));
+            }
+        }
+    }
+    out
 }
 
 /// documented acceptance conditions, evaluated on the raw parts
@@ -476,7 +576,7 @@ impl Check for C05 {
     type Case = Case;
     const ID: &'static str = "C05";
     fn runs(tier: Tier) -> u64 {
-        crate::runner::scaled(450_000, tier)
+        crate::runner::scaled(300_000, tier)
     }
     fn generate(r: &mut Rng, tier: Tier) -> Case {
         let mut c = gen::draw_cfg(r, tier);
@@ -510,6 +610,8 @@ impl Check for C05 {
         judge_pool(ex, "vec", o)?;
         let k = ex.lib("C05:constructors", || B::<VecKind>::c05_constructors(&c.raw))?;
         judge_constructors(ex, &c.raw, "vec", k)?;
+        let o = ex.lib("C05:lax-pool", || lax_pool(c))?;
+        judge_pool(ex, "vec/lax", o)?;
         for _ in 0..c.schedules {
             let pol = ex.seg_perturbed();
             let o = ex.lib("C05:pool", || B::<SimKind>::c05_pool(c))?;
